@@ -218,16 +218,7 @@ pub fn op_name(op: &PrimOp) -> Sx {
     match op {
         PrimOp::RecordStatAccess(id) => l("stat_access", vec![s(id.label())]),
         PrimOp::EnumEmbed(id) => l("enum_embed", vec![s(id.label())]),
-        PrimOp::Force { ignore_not_exported } => {
-            if *ignore_not_exported {
-                s("force!ine")
-            } else {
-                s("force")
-            }
-        }
-        PrimOp::Merge(MergeKind::Standard) => s("(&)"),
-        PrimOp::Merge(MergeKind::PiecewiseDef) => s("(&)!piecewise"),
-        op => s(&format!("{op}")),
+        op => s(canon_name(op).expect("canonical name")),
     }
 }
 
@@ -562,6 +553,142 @@ pub fn parse_num(x: &str) -> R<Number> {
     Number::from_str(x).map_err(|_| format!("bad number {x}"))
 }
 
+/// One table for both directions, `PrimOp` value <-> canonical name. The names are the harness's own
+/// (they are what `Display` printed when the table was written) and do NOT go through `Display`,
+/// which is part of what is being checked: the printer writes `%{op}%`. `op_name` is an exhaustive
+/// match, so a new constructor is a compile error here (the check fails closed at build time).
+macro_rules! op_table {
+    ($( $name:literal => [$($v:tt)*] ),* $(,)?) => {
+        /// canonical names of every `PrimOp` value without a payload identifier
+        pub const ALL_OPS: &[&str] = &[$($name),*];
+
+        fn canon_name(op: &PrimOp) -> Option<&'static str> {
+            use PrimOp::*;
+            match op {
+                $( $($v)* => Some($name), )*
+                RecordStatAccess(_) | EnumEmbed(_) => None,
+            }
+        }
+
+        fn op_of_canon(name: &str) -> Option<PrimOp> {
+            use PrimOp::*;
+            match name {
+                $( $name => Some($($v)*), )*
+                _ => None,
+            }
+        }
+    };
+}
+
+op_table! {
+    "force"                                  => [Force { ignore_not_exported: false }],
+    "force!ine"                              => [Force { ignore_not_exported: true }],
+    "(&)"                                    => [Merge(MergeKind::Standard)],
+    "(&)!piecewise"                          => [Merge(MergeKind::PiecewiseDef)],
+    "typeof"                                 => [Typeof],
+    "cast"                                   => [Cast],
+    "(&&)"                                   => [BoolAnd],
+    "(||)"                                   => [BoolOr],
+    "bool/not"                               => [BoolNot],
+    "blame"                                  => [Blame],
+    "array/map"                              => [ArrayMap],
+    "record/map"                             => [RecordMap],
+    "label/flip_polarity"                    => [LabelFlipPol],
+    "label/polarity"                         => [LabelPol],
+    "label/go_dom"                           => [LabelGoDom],
+    "label/go_codom"                         => [LabelGoCodom],
+    "label/go_array"                         => [LabelGoArray],
+    "label/go_dict"                          => [LabelGoDict],
+    "seq"                                    => [Seq],
+    "deep_seq"                               => [DeepSeq],
+    "array/length"                           => [ArrayLength],
+    "array/generate"                         => [ArrayGen],
+    "record/fields"                          => [RecordFields(RecordOpKind::IgnoreEmptyOpt)],
+    "record/fields_with_opts"                => [RecordFields(RecordOpKind::ConsiderAllFields)],
+    "record/values"                          => [RecordValues],
+    "string/trim"                            => [StringTrim],
+    "string/chars"                           => [StringChars],
+    "string/uppercase"                       => [StringUppercase],
+    "string/lowercase"                       => [StringLowercase],
+    "string/length"                          => [StringLength],
+    "string/base64_encode"                   => [StringBase64Encode],
+    "string/base64_decode"                   => [StringBase64Decode],
+    "to_string"                              => [ToString],
+    "number/from_string"                     => [NumberFromString],
+    "enum/from_string"                       => [EnumFromString],
+    "string/is_match"                        => [StringIsMatch],
+    "string/find"                            => [StringFind],
+    "string/find_all"                        => [StringFindAll],
+    "record/empty_with_tail"                 => [RecordEmptyWithTail],
+    "record/freeze"                          => [RecordFreeze],
+    "trace"                                  => [Trace],
+    "label/push_diag"                        => [LabelPushDiag],
+    "enum/get_arg"                           => [EnumGetArg],
+    "enum/make_variant"                      => [EnumMakeVariant],
+    "enum/is_variant"                        => [EnumIsVariant],
+    "enum/get_tag"                           => [EnumGetTag],
+    "contract/custom"                        => [ContractCustom],
+    "number/arccos"                          => [NumberArcCos],
+    "number/arcsin"                          => [NumberArcSin],
+    "number/arctan"                          => [NumberArcTan],
+    "number/cos"                             => [NumberCos],
+    "number/sin"                             => [NumberSin],
+    "number/tan"                             => [NumberTan],
+    "(+)"                                    => [Plus],
+    "(-)"                                    => [Sub],
+    "(*)"                                    => [Mult],
+    "(/)"                                    => [Div],
+    "(%)"                                    => [Modulo],
+    "number/arctan2"                         => [NumberArcTan2],
+    "number/log"                             => [NumberLog],
+    "pow"                                    => [Pow],
+    "string/concat"                          => [StringConcat],
+    "(==)"                                   => [Eq],
+    "(<)"                                    => [LessThan],
+    "(<=)"                                   => [LessOrEq],
+    "(>)"                                    => [GreaterThan],
+    "(>=)"                                   => [GreaterOrEq],
+    "contract/apply"                         => [ContractApply],
+    "contract/check"                         => [ContractCheck],
+    "label/with_error_data"                  => [LabelWithErrorData],
+    "label/go_field"                         => [LabelGoField],
+    "record/insert"                          => [RecordInsert(RecordOpKind::IgnoreEmptyOpt)],
+    "record/insert_with_opts"                => [RecordInsert(RecordOpKind::ConsiderAllFields)],
+    "record/remove"                          => [RecordRemove(RecordOpKind::IgnoreEmptyOpt)],
+    "record/remove_with_opts"                => [RecordRemove(RecordOpKind::ConsiderAllFields)],
+    "record/get"                             => [RecordGet],
+    "record/has_field"                       => [RecordHasField(RecordOpKind::IgnoreEmptyOpt)],
+    "record/has_field_with_opts"             => [RecordHasField(RecordOpKind::ConsiderAllFields)],
+    "record/field_is_defined"                => [RecordFieldIsDefined(RecordOpKind::IgnoreEmptyOpt)],
+    "record/field_is_defined_with_opts"      => [RecordFieldIsDefined(RecordOpKind::ConsiderAllFields)],
+    "record/split_pair"                      => [RecordSplitPair],
+    "record/disjoint_merge"                  => [RecordDisjointMerge],
+    "(@)"                                    => [ArrayConcat],
+    "array/at"                               => [ArrayAt],
+    "hash"                                   => [Hash],
+    "serialize"                              => [Serialize],
+    "deserialize"                            => [Deserialize],
+    "string/split"                           => [StringSplit],
+    "string/contains"                        => [StringContains],
+    "string/compare"                         => [StringCompare],
+    "seal"                                   => [Seal],
+    "unseal"                                 => [Unseal],
+    "contract/array_lazy_apply"              => [ContractArrayLazyApp],
+    "contract/record_lazy_apply"             => [ContractRecordLazyApp],
+    "label/with_message"                     => [LabelWithMessage],
+    "label/with_notes"                       => [LabelWithNotes],
+    "label/append_note"                      => [LabelAppendNote],
+    "label/lookup_type_variable"             => [LabelLookupTypeVar],
+    "string/replace"                         => [StringReplace],
+    "string/replace_regex"                   => [StringReplaceRegex],
+    "string/substr"                          => [StringSubstr],
+    "record/merge_contract"                  => [MergeContract],
+    "record/seal_tail"                       => [RecordSealTail],
+    "record/unseal_tail"                     => [RecordUnsealTail],
+    "label/insert_type_variable"             => [LabelInsertTypeVar],
+    "array/slice"                            => [ArraySlice],
+}
+
 pub fn op_of_name(x: &Sx) -> R<PrimOp> {
     use PrimOp::*;
     match x {
@@ -570,115 +697,7 @@ pub fn op_of_name(x: &Sx) -> R<PrimOp> {
             "enum_embed" => Ok(EnumEmbed(LocIdent::new(want(x, "enum_embed", 1)?[0].str()?))),
             _ => Err(format!("unknown op {}", x.show())),
         },
-        Sx::S(name) => Ok(match name.as_str() {
-            "force" => Force { ignore_not_exported: false },
-            "force!ine" => Force { ignore_not_exported: true },
-            "(&)" => Merge(MergeKind::Standard),
-            "(&)!piecewise" => Merge(MergeKind::PiecewiseDef),
-            "typeof" => Typeof,
-            "cast" => Cast,
-            "(&&)" => BoolAnd,
-            "(||)" => BoolOr,
-            "bool/not" => BoolNot,
-            "blame" => Blame,
-            "array/map" => ArrayMap,
-            "record/map" => RecordMap,
-            "label/flip_polarity" => LabelFlipPol,
-            "label/polarity" => LabelPol,
-            "label/go_dom" => LabelGoDom,
-            "label/go_codom" => LabelGoCodom,
-            "label/go_array" => LabelGoArray,
-            "label/go_dict" => LabelGoDict,
-            "seq" => Seq,
-            "deep_seq" => DeepSeq,
-            "array/length" => ArrayLength,
-            "array/generate" => ArrayGen,
-            "record/fields" => RecordFields(RecordOpKind::IgnoreEmptyOpt),
-            "record/fields_with_opts" => RecordFields(RecordOpKind::ConsiderAllFields),
-            "record/values" => RecordValues,
-            "string/trim" => StringTrim,
-            "string/chars" => StringChars,
-            "string/uppercase" => StringUppercase,
-            "string/lowercase" => StringLowercase,
-            "string/length" => StringLength,
-            "string/base64_encode" => StringBase64Encode,
-            "string/base64_decode" => StringBase64Decode,
-            "to_string" => ToString,
-            "number/from_string" => NumberFromString,
-            "enum/from_string" => EnumFromString,
-            "string/is_match" => StringIsMatch,
-            "string/find" => StringFind,
-            "string/find_all" => StringFindAll,
-            "record/empty_with_tail" => RecordEmptyWithTail,
-            "record/freeze" => RecordFreeze,
-            "trace" => Trace,
-            "label/push_diag" => LabelPushDiag,
-            "enum/get_arg" => EnumGetArg,
-            "enum/make_variant" => EnumMakeVariant,
-            "enum/is_variant" => EnumIsVariant,
-            "enum/get_tag" => EnumGetTag,
-            "contract/custom" => ContractCustom,
-            "number/arccos" => NumberArcCos,
-            "number/arcsin" => NumberArcSin,
-            "number/arctan" => NumberArcTan,
-            "number/cos" => NumberCos,
-            "number/sin" => NumberSin,
-            "number/tan" => NumberTan,
-            "(+)" => Plus,
-            "(-)" => Sub,
-            "(*)" => Mult,
-            "(/)" => Div,
-            "(%)" => Modulo,
-            "number/arctan2" => NumberArcTan2,
-            "number/log" => NumberLog,
-            "pow" => Pow,
-            "string/concat" => StringConcat,
-            "(==)" => Eq,
-            "(<)" => LessThan,
-            "(<=)" => LessOrEq,
-            "(>)" => GreaterThan,
-            "(>=)" => GreaterOrEq,
-            "contract/apply" => ContractApply,
-            "contract/check" => ContractCheck,
-            "label/with_error_data" => LabelWithErrorData,
-            "label/go_field" => LabelGoField,
-            "record/insert" => RecordInsert(RecordOpKind::IgnoreEmptyOpt),
-            "record/insert_with_opts" => RecordInsert(RecordOpKind::ConsiderAllFields),
-            "record/remove" => RecordRemove(RecordOpKind::IgnoreEmptyOpt),
-            "record/remove_with_opts" => RecordRemove(RecordOpKind::ConsiderAllFields),
-            "record/get" => RecordGet,
-            "record/has_field" => RecordHasField(RecordOpKind::IgnoreEmptyOpt),
-            "record/has_field_with_opts" => RecordHasField(RecordOpKind::ConsiderAllFields),
-            "record/field_is_defined" => RecordFieldIsDefined(RecordOpKind::IgnoreEmptyOpt),
-            "record/field_is_defined_with_opts" => RecordFieldIsDefined(RecordOpKind::ConsiderAllFields),
-            "record/split_pair" => RecordSplitPair,
-            "record/disjoint_merge" => RecordDisjointMerge,
-            "(@)" => ArrayConcat,
-            "array/at" => ArrayAt,
-            "hash" => Hash,
-            "serialize" => Serialize,
-            "deserialize" => Deserialize,
-            "string/split" => StringSplit,
-            "string/contains" => StringContains,
-            "string/compare" => StringCompare,
-            "seal" => Seal,
-            "unseal" => Unseal,
-            "contract/array_lazy_apply" => ContractArrayLazyApp,
-            "contract/record_lazy_apply" => ContractRecordLazyApp,
-            "label/with_message" => LabelWithMessage,
-            "label/with_notes" => LabelWithNotes,
-            "label/append_note" => LabelAppendNote,
-            "label/lookup_type_variable" => LabelLookupTypeVar,
-            "string/replace" => StringReplace,
-            "string/replace_regex" => StringReplaceRegex,
-            "string/substr" => StringSubstr,
-            "record/merge_contract" => MergeContract,
-            "record/seal_tail" => RecordSealTail,
-            "record/unseal_tail" => RecordUnsealTail,
-            "label/insert_type_variable" => LabelInsertTypeVar,
-            "array/slice" => ArraySlice,
-            other => return Err(format!("unknown op name {other}")),
-        }),
+        Sx::S(name) => op_of_canon(name).ok_or_else(|| format!("unknown op name {name}")),
         _ => Err(format!("bad op {}", x.show())),
     }
 }
